@@ -318,7 +318,7 @@ async fn run_c19(rig: &mut Rig, id: u64, sc: &C19Scenario, cache: &mut WorldCach
         return res;
     }
     let mut probes = oracle19::Probes::new();
-    let chk = oracle19::check(&st, &ex.received, &unix, &mut probes);
+    let chk = oracle19::check(&st, &ex.received, ex.server_closed, &unix, &mut probes);
     for (k, v) in probes {
         *rig.summary.probes.entry(k).or_insert(0) += v;
     }
@@ -500,7 +500,10 @@ async fn do_step(rig: &mut Rig, step: &Step, pos: &str, inst_len: u32, history: 
     }
     rig.hash_unix(&unix);
     let obs_key = if obs_used { format!(" obs={}", step.obs.name()) } else { String::new() };
-    let key = if is_final { format!("trigger=final_get after=[{history}]") } else { format!("trigger={cname}{obs_key}") };
+    // wedges are keyed by the client behaviour alone (the observation behaviour is in the message);
+    // status oracles are keyed by both, because there the observation hop decides
+    let wedge_key = format!("trigger={cname}");
+    let key = if is_final { "trigger=final_get".to_string() } else { format!("trigger={cname}{obs_key}") };
     let tr = |extra: &str| format!("{cname}/{}: {extra}{note}", step.obs.name());
 
     // (1) is the exporter still there?
@@ -509,12 +512,28 @@ async fn do_step(rig: &mut Rig, step: &Step, pos: &str, inst_len: u32, history: 
             violation: Some(violation(
                 "C20",
                 format!("C20.{kind}_on_{class}"),
-                key,
+                wedge_key,
                 format!("{msg}; triggered by client behaviour {cname} (observation socket: {}{}); sequence so far: [{history}]", step.obs.name(), if obs_used { "" } else { ", never reached" }),
             )),
             fatal: true,
             trace: tr(&format!("EXPORTER GONE ({kind}) ")),
             shape: format!("{}:{}:{kind}", step.client.name(), step.obs.name()),
+        };
+    }
+    // (1b) every client of this step is gone and nothing can run any more: a live exporter is
+    // parked in accept(). If it is not, it waits for something that will never happen.
+    let stuck = !sim::tcp_accept_pending(&rig.addr);
+    if stuck && exchange.as_ref().map(|e| matches!(parse_http(&e.received), HttpParse::Complete(_))).unwrap_or(true) {
+        return StepReport {
+            violation: Some(violation(
+                "C20",
+                format!("C20.hang_on_{class}"),
+                wedge_key,
+                format!("after {cname} the runtime is quiescent but the exporter is not waiting in accept(): it can never serve another client; observation socket {}; sequence so far: [{history}]", step.obs.name()),
+            )),
+            fatal: true,
+            trace: tr("EXPORTER STUCK (not in accept) "),
+            shape: format!("{}:{}:stuck", step.client.name(), step.obs.name()),
         };
     }
     // (2) a well-formed GET must be answered completely
